@@ -436,7 +436,11 @@ impl WorkReq {
                     },
                     _ => BodyFraming::Length,
                 };
-                build_request("PUT", "/work", headers, b, &fr)
+                if self.unread() {
+                    build_request("POST", "/work", headers, b, &fr)
+                } else {
+                    build_request("PUT", "/work", headers, b, &fr)
+                }
             }
         }
     }
@@ -447,7 +451,7 @@ impl WorkReq {
             self.nonce, self.steps, self.step_ms, self.panic_at, self.resp_bytes, self.flags()
         );
         H2Req {
-            method: if self.body.is_some() { "PUT".into() } else { "GET".into() },
+            method: if self.unread() { "POST".into() } else if self.body.is_some() { "PUT".into() } else { "GET".into() },
             target: "/work".into(),
             headers: vec![("x-sim".into(), Blob(xs.into_bytes()))],
             body: Blob(self.body.clone().unwrap_or_default()),
@@ -455,6 +459,11 @@ impl WorkReq {
             req,
             cancel_ms: 0,
         }
+    }
+    /// Workload diversity by nonce: one request with a body in seven goes to
+    /// an endpoint that has no body parameter, so its body stays unread.
+    pub fn unread(&self) -> bool {
+        self.body.is_some() && self.nonce % 7 == 3
     }
     pub fn plan(&self) -> ReqPlan {
         ReqPlan {
@@ -465,8 +474,10 @@ impl WorkReq {
                 step_ms: self.step_ms,
                 panic_at: self.panic_at,
                 resp_bytes: self.resp_bytes,
-                body: self.body.as_ref().map(|b| (b.len(), crate::rng::fnv(b))),
-                op: if self.body.is_some() {
+                body: if self.unread() { None } else { self.body.as_ref().map(|b| (b.len(), crate::rng::fnv(b))) },
+                op: if self.unread() {
+                    crate::api::work::OP_WORK_POST
+                } else if self.body.is_some() {
                     crate::api::work::OP_WORK_PUT
                 } else {
                     crate::api::work::OP_WORK_GET
